@@ -1785,4 +1785,299 @@ theorem verifyPure_iff [DecidableEq K] (defs : List (Def K)) (sel : String → B
         simp at e; subst e
         exact absurd (hinv.1 _ hnd hns') hmem
 
+/-! ### applicable misuse kinds (no priority, no order) -/
+
+theorem not_all_isFixed_iff (qs : List Qubit) :
+    qs.all isFixed = false ↔ ∃ q ∈ qs, ∀ n, q ≠ Qubit.fixed n := by
+  induction qs with
+  | nil => simp
+  | cons q qs ih =>
+    simp only [List.all_cons, Bool.and_eq_false_iff, ih, List.mem_cons, exists_eq_or_imp]
+    apply or_congr _ Iff.rfl
+    cases q <;> simp [isFixed]
+
+theorem not_all_isVar_iff (qs : List Qubit) :
+    qs.all isVar = false ↔ ∃ q ∈ qs, ∀ v, q ≠ Qubit.var v := by
+  induction qs with
+  | nil => simp
+  | cons q qs ih =>
+    simp only [List.all_cons, Bool.and_eq_false_iff, ih, List.mem_cons, exists_eq_or_imp]
+    apply or_congr _ Iff.rfl
+    cases q <;> simp [isVar]
+
+theorem any_unboundVar_iff (qvars : List String) (qs : List Qubit) :
+    qs.any (unboundVar qvars) = true ↔ ∃ v, Qubit.var v ∈ qs ∧ v ∉ qvars := by
+  induction qs with
+  | nil => simp
+  | cons q qs ih =>
+    simp only [List.any_cons, Bool.or_eq_true, ih, List.mem_cons]
+    constructor
+    · rintro (h | ⟨v, h1, h2⟩)
+      · cases q with
+        | var v => simp [unboundVar] at h; exact ⟨v, .inl rfl, h⟩
+        | fixed n => simp [unboundVar] at h
+        | placeholder n => simp [unboundVar] at h
+      · exact ⟨v, .inr h1, h2⟩
+    · rintro ⟨v, h1 | h1, h2⟩
+      · left; rw [← h1]; simpa [unboundVar] using h2
+      · exact .inr ⟨v, h1, h2⟩
+
+theorem localKinds_seq {defs : List (Def K)} {sel : String → Bool} {g : Gate K} {stack : List String} {d : Def K}
+    {qvars : List String} {gates : List (Gate K)}
+    (hf : findDef defs g.name = some d) (hs : d.spec = .seq qvars gates) (hsel : sel g.name = true) :
+    localKinds defs sel (.gate g) stack =
+      (if d.params.length ≠ g.params.length then [Kind.paramCount] else []) ++
+      (if g.mods.isEmpty then [] else [Kind.modifiers]) ++
+      (if stack.contains d.name then [Kind.cyclic] else []) ++
+      (if g.qubits.length ≠ qvars.length then [Kind.qubitCount] else []) ++
+      (if g.qubits.all isFixed then [] else [Kind.nonFixed]) ++
+      (if gates.all (fun e => e.qubits.all isVar) then [] else [Kind.invalidElem]) ++
+      (if gates.any (fun e => e.qubits.any (unboundVar qvars)) then [Kind.undefinedElem] else []) := by
+  simp only [localKinds, hf, hs, hsel, if_true]
+
+theorem misuse_selected {defs : List (Def K)} {sel : String → Bool} {stack : List String} {i : Instr K} {k : Kind}
+    (h : Misuse defs sel stack i k) : ∃ g d, i = .gate g ∧ Selected defs sel g d := by
+  cases h <;> exact ⟨_, _, rfl, ‹Selected defs sel _ _›⟩
+
+theorem mem_localKinds_iff (defs : List (Def K)) (sel : String → Bool) (i : Instr K) (stack : List String)
+    (k : Kind) : k ∈ localKinds defs sel i stack ↔ Misuse defs sel stack i k := by
+  by_cases hsel : ∃ g d, i = .gate g ∧ Selected defs sel g d
+  · obtain ⟨g, d, rfl, hS⟩ := hsel
+    obtain ⟨hf, ⟨qvars, gates, hs⟩, hsl⟩ := hS
+    have hS : Selected defs sel g d := ⟨hf, ⟨qvars, gates, hs⟩, hsl⟩
+    have hsd : ∀ {d'}, Selected defs sel g d' → d' = d := fun h => by
+      have := hf.symm.trans h.1; simp at this; exact this.symm
+    rw [localKinds_seq hf hs hsl]
+    simp only [List.mem_append]
+    constructor
+    · rintro ((((((h | h) | h) | h) | h) | h) | h)
+      · split at h
+        · simp at h; subst h; exact .paramCount hS ‹_›
+        · simp at h
+      · split at h
+        · simp at h
+        · simp at h; subst h
+          exact .modifiers hS (by intro hm; simp_all)
+      · split at h
+        · simp at h; subst h; exact .cyclic hS (by simpa using ‹stack.contains d.name = true›)
+        · simp at h
+      · split at h
+        · simp at h; subst h; exact .qubitCount hS hs ‹_›
+        · simp at h
+      · split at h
+        · simp at h
+        · simp at h; subst h
+          rename_i hq
+          obtain ⟨q, hq1, hq2⟩ := (not_all_isFixed_iff g.qubits).1 (by simpa using hq)
+          exact .nonFixed hS hq1 hq2
+      · split at h
+        · simp at h
+        · simp at h; subst h
+          rename_i hq
+          have : ∃ e ∈ gates, e.qubits.all isVar = false := by
+            have h' : gates.all (fun e => e.qubits.all isVar) = false := by simpa using hq
+            rw [List.all_eq_false] at h'
+            obtain ⟨e, he, hne⟩ := h'
+            exact ⟨e, he, by simpa using hne⟩
+          obtain ⟨e, he, hev⟩ := this
+          obtain ⟨q, hq1, hq2⟩ := (not_all_isVar_iff e.qubits).1 hev
+          exact .invalidElem hS hs he hq1 hq2
+      · split at h
+        · simp at h; subst h
+          rename_i hq
+          rw [List.any_eq_true] at hq
+          obtain ⟨e, he, hev⟩ := hq
+          obtain ⟨v, hv1, hv2⟩ := (any_unboundVar_iff qvars e.qubits).1 hev
+          exact .undefinedElem hS hs he hv1 hv2
+        · simp at h
+    · intro h
+      cases h with
+      | paramCount h1 h2 =>
+        cases hsd h1
+        refine .inl (.inl (.inl (.inl (.inl (.inl ?_)))))
+        simp [h2]
+      | modifiers h1 h2 =>
+        refine .inl (.inl (.inl (.inl (.inl (.inr ?_)))))
+        have : g.mods.isEmpty = false := by
+          cases hm : g.mods with
+          | nil => exact absurd hm h2
+          | cons => simp
+        simp [this]
+      | cyclic h1 h2 =>
+        cases hsd h1
+        refine .inl (.inl (.inl (.inl (.inr ?_))))
+        have : stack.contains d.name = true := by simpa using h2
+        rw [if_pos this]; simp
+      | qubitCount h1 h2 h3 =>
+        cases hsd h1; rw [hs] at h2; cases h2
+        refine .inl (.inl (.inl (.inr ?_)))
+        simp [h3]
+      | nonFixed h1 h2 h3 =>
+        refine .inl (.inl (.inr ?_))
+        have := (not_all_isFixed_iff g.qubits).2 ⟨_, h2, h3⟩
+        simp [this]
+      | invalidElem h1 h2 h3 h4 h5 =>
+        cases hsd h1; rw [hs] at h2; cases h2
+        refine .inl (.inr ?_)
+        have h6 := (not_all_isVar_iff _).2 ⟨_, h4, h5⟩
+        have : gates.all (fun e => e.qubits.all isVar) = false := by
+          rw [List.all_eq_false]
+          exact ⟨_, h3, by simp [h6]⟩
+        simp [this]
+      | undefinedElem h1 h2 h3 h4 h5 =>
+        cases hsd h1; rw [hs] at h2; cases h2
+        refine .inr ?_
+        have h6 := (any_unboundVar_iff qvars _).2 ⟨_, h4, h5⟩
+        have : gates.any (fun e => e.qubits.any (unboundVar qvars)) = true := by
+          rw [List.any_eq_true]
+          exact ⟨_, h3, h6⟩
+        simp [this]
+  · have h1 : localKinds defs sel i stack = [] := by
+      cases i with
+      | other k => rfl
+      | gate g =>
+        cases hf : findDef defs g.name with
+        | none => simp [localKinds, hf]
+        | some d =>
+          cases hs : d.spec with
+          | other => simp [localKinds, hf, hs]
+          | seq qvars gates =>
+            by_cases hsl : sel g.name = true
+            · exact absurd ⟨g, d, rfl, hf, ⟨qvars, gates, hs⟩, hsl⟩ hsel
+            · simp [localKinds, hf, hs, hsl]
+    rw [h1]
+    simp only [List.not_mem_nil, false_iff]
+    intro h
+    exact hsel (misuse_selected h)
+
+/-- the reported error is one of the applicable kinds -/
+theorem localErr_misuse {defs : List (Def K)} {sel : String → Bool} {stack : List String} {i : Instr K} {e : Err}
+    (h : LocalErr defs sel stack i e) : Misuse defs sel stack i e.kind := by
+  cases h with
+  | paramCount h1 h2 => exact .paramCount h1 h2
+  | modifiers h1 _ h3 => exact .modifiers h1 h3
+  | cyclic h1 _ _ h4 => exact .cyclic h1 h4
+  | qubitCount h1 _ _ _ h5 h6 => exact .qubitCount h1 h5 h6
+  | nonFixed h1 _ _ _ _ _ h7 h8 => exact .nonFixed h1 (by rw [h7]; simp) h8
+  | elem h1 _ _ _ h5 _ _ h8 =>
+    cases h8 with
+    | @invalid pre e0 post vs q rest _ hq _ hnv =>
+      exact .invalidElem (e := e0) h1 h5 (by simp) (by rw [hq]; simp) hnv
+    | @undefined pre e0 post vs v rest _ hq _ hnm =>
+      exact .undefinedElem (e := e0) h1 h5 (by simp) (by rw [hq]; simp) hnm
+
+/-- an applicable misuse makes the invocation fail (with some error) -/
+theorem misuse_localErr {defs : List (Def K)} {sel : String → Bool} {stack : List String} {i : Instr K} {k : Kind}
+    (h : Misuse defs sel stack i k) : ∃ e, LocalErr defs sel stack i e := by
+  cases hg : gateSequenceFromInstruction defs sel i stack with
+  | error e => exact ⟨e, (gsfi_error_iff defs sel i stack e).1 hg⟩
+  | ok o =>
+    exfalso
+    cases o with
+    | none =>
+      have hn := (gsfi_none_iff _ _ _ _).1 hg
+      apply hn
+      cases h <;> exact ⟨_, _, rfl, ‹Selected defs sel _ _›⟩
+    | some p =>
+      obtain ⟨body', name⟩ := p
+      obtain ⟨g, d, body, hi, hsel, hm, hns, hinst, _, _⟩ := (gsfi_some_iff _ _ _ _ _ _).1 hg
+      subst hi
+      have hsd : ∀ {d'}, Selected defs sel g d' → d' = d := fun h' => by
+        have := hsel.1.symm.trans h'.1; simp at this; exact this.symm
+      obtain ⟨qv, gs, fs, σ, ρ, hs, hp, hq, hfx, _, hρ, hpw⟩ := hinst
+      cases h with
+      | paramCount h1 h2 => cases hsd h1; exact h2 hp.symm
+      | modifiers _ h2 => exact h2 hm
+      | cyclic h1 h2 => cases hsd h1; exact hns h2
+      | qubitCount h1 h2 h3 => cases hsd h1; rw [hs] at h2; cases h2; exact h3 hq
+      | nonFixed _ h2 h3 =>
+        rw [hfx] at h2
+        obtain ⟨n, _, hn⟩ := List.mem_map.1 h2
+        exact h3 n hn.symm
+      | invalidElem h1 h2 h3 h4 h5 =>
+        cases hsd h1; rw [hs] at h2; cases h2
+        obtain ⟨b, _, hb⟩ := pointwise_mem_left hpw h3
+        obtain ⟨bq, _, v, hv, _⟩ := pointwise_mem_left hb.qubits h4
+        exact h5 v hv
+      | undefinedElem h1 h2 h3 h4 h5 =>
+        cases hsd h1; rw [hs] at h2; cases h2
+        obtain ⟨b, _, hb⟩ := pointwise_mem_left hpw h3
+        obtain ⟨bq, _, v', hv, hr⟩ := pointwise_mem_left hb.qubits h4
+        cases hv
+        obtain ⟨j, hj, _⟩ := (hρ _ _).1 hr
+        exact h5 (List.mem_of_getElem? hj)
+
+theorem misuseAt_mono {defs : List (Def K)} {sel : String → Bool} {stack : List String}
+    {src src' : List (Instr K)} {k : Kind} (h : MisuseAt defs sel stack src k) (hs : ∀ i ∈ src, i ∈ src') :
+    MisuseAt defs sel stack src' k := by
+  cases h with
+  | here hi hm => exact .here (hs _ hi) hm
+  | inside hg hsel hm hns hinst hin => exact .inside (hs _ hg) hsel hm hns hinst hin
+
+theorem kindsWith_iff (defs : List (Def K)) (sel : String → Bool)
+    (nested : List String → List (Instr K) → List Kind) (stack : List String)
+    (H : ∀ name body k, name ∉ stack → name ∈ defs.map (·.name) →
+      (k ∈ nested (stack ++ [name]) body ↔ MisuseAt defs sel (stack ++ [name]) body k))
+    (src : List (Instr K)) (k : Kind) :
+    k ∈ kindsWith defs sel nested stack src ↔ MisuseAt defs sel stack src k := by
+  induction src with
+  | nil =>
+    simp only [kindsWith, List.not_mem_nil, false_iff]
+    intro h
+    cases h with
+    | here hi _ => simp at hi
+    | inside hg _ _ _ _ _ => simp at hg
+  | cons i rest ih =>
+    simp only [kindsWith, List.mem_append]
+    constructor
+    · rintro ((h | h) | h)
+      · exact .here (by simp) ((mem_localKinds_iff _ _ _ _ _).1 h)
+      · split at h
+        · rename_i body name hg
+          obtain ⟨hns, hnd⟩ := gsfi_some_name hg
+          obtain ⟨g, d, body0, hi, hsel, hm, hns', hinst, hb, hname⟩ := (gsfi_some_iff _ _ _ _ _ _).1 hg
+          subst hi; subst hb; subst hname
+          exact .inside (by simp) hsel hm hns' hinst ((H _ _ _ hns hnd).1 h)
+        · simp at h
+      · exact misuseAt_mono (ih.1 h) (fun j hj => by simp [hj])
+    · intro h
+      cases h with
+      | here hi hm =>
+        cases hi with
+        | head => exact .inl (.inl ((mem_localKinds_iff _ _ _ _ _).2 hm))
+        | tail _ hi' => exact .inr (ih.2 (.here hi' hm))
+      | inside hg hsel hm hns hinst hin =>
+        cases hg with
+        | head =>
+          have hgs := (gsfi_some_iff _ _ _ _ _ _).2 ⟨_, _, _, rfl, hsel, hm, hns, hinst, rfl, rfl⟩
+          obtain ⟨hns0, hnd⟩ := gsfi_some_name hgs
+          refine .inl (.inr ?_)
+          rw [hgs]
+          exact (H _ _ _ hns0 hnd).2 hin
+        | tail _ hg' => exact .inr (ih.2 (.inside hg' hsel hm hns hinst hin))
+
+theorem kindsFuel_iff (defs : List (Def K)) (sel : String → Bool) (fuel : Nat) (stack : List String)
+    (src : List (Instr K)) (k : Kind) (hf : remaining defs stack < fuel) :
+    k ∈ kindsFuel defs sel fuel stack src ↔ MisuseAt defs sel stack src k := by
+  induction fuel generalizing stack src k with
+  | zero => omega
+  | succ n ih =>
+    simp only [kindsFuel]
+    apply kindsWith_iff
+    intro name body k' hns hnd
+    exact ih _ _ _ (by have := remaining_push_lt defs stack name hnd hns; omega)
+
+theorem errAt_misuseAt {defs : List (Def K)} {sel : String → Bool} {stack : List String} {src : List (Instr K)}
+    {e : Err} (h : ErrAt defs sel stack src e) : MisuseAt defs sel stack src e.kind := by
+  induction h with
+  | here hl => exact .here (by simp) (localErr_misuse hl)
+  | inside hsel hm hns hinst _ ih => exact .inside (by simp) hsel hm hns hinst ih
+  | later _ _ ih => exact misuseAt_mono ih (fun j hj => by simp [hj])
+
+theorem misuseAt_bad {defs : List (Def K)} {sel : String → Bool} {stack : List String} {src : List (Instr K)}
+    {k : Kind} (h : MisuseAt defs sel stack src k) : Bad defs sel stack src := by
+  induction h with
+  | here hi hm => obtain ⟨e, he⟩ := misuse_localErr hm; exact .here hi he
+  | inside hg hsel hm hns hinst _ ih => exact .inside hg hsel hm hns hinst ih
+
 end QV.C20
